@@ -196,3 +196,5 @@ def run(ctx, led):
     run_rule(led, "B4", "kernel hygiene the blocking clauses rely on: no element skipped after swap_remove, no nogood id recycled while it is a reason (shared with C07-J1)", shared.swap_remove_skip, ctx)
     run_rule(led, "B5", "a nogood is deleted only if it is not the reason of a trail entry (shared with C07-J1)", C07.j1, ctx)
     run_rule(led, "B3", "result TABLE of next_solution", b3, ctx)
+    from . import predrules
+    run_rule(led, "B6", "implicit reasons imply the predicate they explain (shared with C02-U8)", predrules.implicit_reasons, ctx)
